@@ -268,6 +268,9 @@ fn update_head(encoding: ContentEncoding, head: &mut ResponseHead) {
     head.headers_mut()
         .append(header::VARY, HeaderValue::from_static("accept-encoding"));
 
+    // a length set by the handler describes the unencoded body; the encoded body is streamed
+    head.headers_mut().remove(header::CONTENT_LENGTH);
+
     head.no_chunking(false);
 }
 
